@@ -255,8 +255,20 @@ func lenClass(c Case) string {
 // transparent path. Oracles (a) and (b) apply to selectable combinations only; for the
 // others nothing but "no crash" is required (the client would never choose them).
 
+// The selectable pairs are a frozen table (what the downstream-codec probe carries on the
+// pinned tree), not computed with the code under test: a change that breaks a carrier for a
+// codec must not silently move that pair out of the oracle's scope. TestCheck verifies that
+// every pair of the table still carries the probe.
+var frozenSelectable = map[string]bool{
+	"NULL/Base32": true, "NULL/Base64": true, "NULL/Base64u": true, "NULL/Base85": true, "NULL/Base91": true, "NULL/Base128": true, "NULL/Raw": true,
+	"TXT/Base32": true, "TXT/Base64": true, "TXT/Base64u": true,
+	"MX/Base32": true, "MX/Base64": true, "MX/Base64u": true,
+	"CNAME/Base32": true, "CNAME/Base64": true, "CNAME/Base64u": true,
+	"A/Base64": true, "A/Base64u": true, "A/Base128": true,
+}
+
 func selectable(rt uint16, codec, domain string) bool {
-	return probeOutcome(rt, codec, domain) == "ok"
+	return frozenSelectable[rnames[dnsmessage.Type(rt)]+"/"+codec]
 }
 
 var probeCache = map[string]string{}
@@ -391,6 +403,22 @@ func TestCheck(t *testing.T) {
 		f := probeSize(c.RType, c.Codec, c.Domain)
 		eval(r, c, c.Kind == "packet-data" && f > 2 && c.Len <= f-2)
 		return
+	}
+	if r.Mine(9999999) {
+		for _, rt := range rtypes {
+			for _, e := range codecs {
+				if !frozenSelectable[rnames[rt]+"/"+e.Name()] {
+					continue
+				}
+				for _, d := range append(append([]string{}, domains...), hDomain) {
+					r.Eval(1)
+					if out := probeOutcome(uint16(rt), e.Name(), d); out != "ok" {
+						c := Case{Kind: "downprobe", RType: uint16(rt), Codec: e.Name(), Domain: d}
+						r.Fail(fmt.Sprintf("%s|downprobe|%s|%s|selectable-pair", out, rnames[rt], e.Name()), fmt.Sprintf("the downstream-codec probe over %s records with %s (domain %q), which the client selects on the pinned tree, now ends as: %s", rnames[rt], e.Name(), d, out), 1, c)
+					}
+				}
+			}
+		}
 	}
 	for i, hc := range handlerCases(r.Thorough()) {
 		if r.Mine(10000000 + i) {
